@@ -952,6 +952,9 @@ class Evaluator:
         if isinstance(e, (ast.ListComp, ast.GeneratorExp, ast.SetComp)):
             return self.comprehension(e, fr)
         if isinstance(e, ast.DictComp):
+            rows = self._table_rows(e.generators, fr, lambda fr_i: (self.expr(e.key, fr_i), self.expr(e.value, fr_i)))
+            if rows is not None:
+                return ("dict", tuple(rows))
             inner = Frame(fr.fn, fr.module, dict(fr.env), fr.self_cls, fr.depth)
             gens = []
             for i, g in enumerate(e.generators):
@@ -983,9 +986,61 @@ class Evaluator:
             return v
         raise Unsupported(f"expression {type(e).__name__}: {ast.unparse(e)[:60]}")
 
+    def _table_rows(self, generators, fr: Frame, emit) -> Optional[list]:
+        """A comprehension whose first generator ranges over a table of literals (nested displays of constants / enum members) is the
+        display of its instances: generators are run in order, later ones over the (then concrete) parts of a row; tests must decide."""
+        def literal(t):
+            if t[0] in ("const", "enum"):
+                return True
+            if t[0] == "lin" and not t[1]:
+                return True
+            return t[0] in ("tuple", "list") and all(literal(x) for x in t[1])
+        try:
+            first = self.expr(generators[0].iter, Frame(fr.fn, fr.module, dict(fr.env), fr.self_cls, fr.depth))
+        except Unsupported:
+            return None
+        if first[0] not in ("tuple", "list") or not first[1] or not all(x[0] in ("tuple", "list") and literal(x) for x in first[1]) or len(generators) > 3:
+            return None
+        out: list = []
+
+        def run(i, env):
+            if len(out) > 256:
+                raise Unsupported("table too large")
+            fr_i = Frame(fr.fn, fr.module, env, fr.self_cls, fr.depth)
+            if i == len(generators):
+                out.append(emit(fr_i))
+                return
+            g = generators[i]
+            it = self.expr(g.iter, fr_i)
+            if it[0] not in ("tuple", "list") or any(x[0] == "star" for x in it[1]):
+                raise Unsupported("not a table")
+            for item in it[1]:
+                env2 = dict(env)
+                fr2 = Frame(fr.fn, fr.module, env2, fr.self_cls, fr.depth)
+                self.bind_target(g.target, item, fr2)
+                keep = True
+                for c in g.ifs:
+                    v = self.truthy(self.expr(c, fr2))
+                    if v == FALSE:
+                        keep = False
+                        break
+                    if v != TRUE:
+                        raise Unsupported("undecided test")
+                if keep:
+                    run(i + 1, env2)
+        try:
+            run(0, dict(fr.env))
+        except Unsupported:
+            return None
+        return out
+
     def comprehension(self, e, fr: Frame) -> Term:
         """[elt for v in it if c ...] -> ('comp', kind, elt-term, ((var, iter-term, (conds..)), ...)); bound
         variables are renamed positionally so that two comprehensions differing only in variable names agree."""
+        if isinstance(e, (ast.ListComp, ast.SetComp)):
+            rows = self._table_rows(e.generators, fr, lambda fr_i: self.expr(e.elt, fr_i))
+            if rows is not None:
+                return ("list" if isinstance(e, ast.ListComp) else "set", tuple(rows))
         inner = Frame(fr.fn, fr.module, dict(fr.env), fr.self_cls, fr.depth)
         gens = []
         for i, g in enumerate(e.generators):
